@@ -2,7 +2,9 @@
 (* Layer 2: the ignored-fields configuration used by record equality and hashing, with its scoped override.
    Anchor: flow/record/base.py IGNORE_FIELDS_FOR_COMPARISON, set_ignored_fields_for_comparison,
    ignore_fields_for_comparison (context manager).
-   Dev: "NoFinally" -- the scope is not undone when it ends with an error. *)
+   Dev: "NoFinally" -- the scope is not undone when it ends with an error;
+        "ExceptionOnly" -- it is undone for ordinary exceptions but not for the other ways a block can be left
+        (KeyboardInterrupt, SystemExit, a cancelled task, a generator that is closed: BaseException). *)
 EXTENDS Naturals, Sequences, FiniteSets, TLC
 CONSTANTS FieldSets, MaxDepth, MaxOps, Dev
 VARIABLES ignored, stack, nops
@@ -14,7 +16,10 @@ Enter(S) == Tick /\ Len(stack) < MaxDepth /\ stack' = Append(stack, ignored) /\ 
 ExitOk   == Tick /\ stack # <<>> /\ ignored' = stack[Len(stack)] /\ stack' = SubSeq(stack, 1, Len(stack) - 1)
 ExitErr  == Tick /\ stack # <<>> /\ stack' = SubSeq(stack, 1, Len(stack) - 1)
             /\ ignored' = IF "NoFinally" \in Dev THEN ignored ELSE stack[Len(stack)]
-Next == (\E S \in FieldSets : Set(S) \/ Enter(S)) \/ ExitOk \/ ExitErr
+\* the block is left by something that is not an ordinary exception
+ExitBase == Tick /\ stack # <<>> /\ stack' = SubSeq(stack, 1, Len(stack) - 1)
+            /\ ignored' = IF "NoFinally" \in Dev \/ "ExceptionOnly" \in Dev THEN ignored ELSE stack[Len(stack)]
+Next == (\E S \in FieldSets : Set(S) \/ Enter(S)) \/ ExitOk \/ ExitErr \/ ExitBase
 Spec == Init /\ [][Next]_vars
 \* a scoped override is undone when the scope ends, also when it ends with an error
 ScopeRestores == [][(Len(stack') < Len(stack)) => ignored' = stack[Len(stack)]]_vars
